@@ -682,6 +682,16 @@ fn check_dhcp(e: &mut Entropy, ctx: &mut Ctx) -> Result<serde_json::Value, Failu
             ensure!(re3 == wire, "reencode", "dhcp_bytes_prefix", "trailing bytes changed the decoded value");
         }
     }
+    // a message cut short: whatever the decoder accepts must re-encode to bytes it consumed, i.e. to a prefix of what it was given
+    if e.chance(1, 3) {
+        let k = e.choose(wire.len());
+        let cut = &wire[..k];
+        if let Ok(d4) = guard(|| DhcpMessage::from_bytes(cut.iter().cloned()))? {
+            let re4 = guard(|| DhcpMessage::to_message(d4))?.map_err(|err| Failure::new("reencode", "dhcp_encode", format!("{err}")))?.to_vec();
+            ensure!(re4.len() <= cut.len() && re4[..] == cut[..re4.len()], "reencode", "dhcp_truncated_accepted", "the decoder accepted the first {k} bytes {} of a {}-byte message but re-encoding the value gives {} ({} bytes): not what was consumed", hex(cut), wire.len(), hex(&re4), re4.len());
+        }
+        ctx.class("dhcp_truncated_input");
+    }
     if t != 1 || !sname.is_ascii() || sname.is_empty() {
         ctx.nontrivial = true;
     }
